@@ -83,7 +83,8 @@ def run(ctx):
                 continue
             r = I.run_encode(cdc, d[1])
             if r[0] != 'ok':
-                fid = None
+                # F56: the strict codecs' time encoder refuses text their decoders let through
+                fid = 'F56' if cdc in ('CER', 'DER') and _has_time(c.T) and r[1] == 'EMalformed' else None
                 ctx.prop_fail("the library's encoder refuses a value the decoder returned: %s" % r[1], m, finding=fid)
                 continue
             d2 = I.run_decode(cdc, r[1], asn1Spec=c.spec)
@@ -155,6 +156,16 @@ def run(ctx):
         for i, cd in codes.items():
             if cd == 2: ctx.stats['model_declines'] += 1
             else: ctx.corr_fail('model and implementation disagree on an accepted input', meta[i])
+
+
+def _has_time(T):
+    k = T[0]
+    if k == 'str': return T[1] in ('GeneralizedTime', 'UTCTime')
+    if k in ('imp', 'exp'): return _has_time(T[2])
+    if k in ('seq', 'set'): return any(_has_time(ft) for _, ft in T[1])
+    if k in ('seqof', 'setof'): return _has_time(T[1])
+    if k == 'choice': return any(_has_time(a) for a in T[1])
+    return False
 
 
 def _has_f01_shape(T):
